@@ -67,6 +67,16 @@ def dedup (xs : List String) : List String := xs.foldl (fun acc x => if acc.cont
 
 def parseHandlerOpt (s : String) : Option Handler := if s = "nil" then none else some (.named s)
 
+/-- `serve` (through mux.ToHandler: a fresh RouteParams per request, Generated fact `toHandlerFreshRouteParams`) and
+    `served` (Router.ServeCOAP with a fresh mux.Message) are the same function of the router and the path. -/
+def modelServe (r : Router) (p : String) : Router × String :=
+  let path : Option (Option Str) := if p = "none" then some none else (decodeStr p).map some
+  match path with
+  | none => (r, "bad-op")
+  | some path =>
+    let k := (r.z.filter (fun e => pathMatch e.2 (filterPath (path.getD [])))).length
+    (r, joinWith " || " (dedup ((orders r.z).map (fun o => fmtOutcome (r.serveCOAP o path)))) ++ s!" ## {k}")
+
 def modelStep (r : Router) (line : String) : Router × String :=
   match words line with
   | ["reset"] => ({}, "ok")
@@ -94,13 +104,8 @@ def modelStep (r : Router) (line : String) : Router × String :=
   | ["default", h] => (r.defaultHandle (parseHandlerOpt h), "ok")
   | ["defaultf", h] => (r.defaultHandle (some (if h = "nil" then .nilFunc else .named h)), "ok")
   | ["mw", m] => (r.use m, "ok")
-  | ["serve", p] =>
-    let path : Option (Option Str) := if p = "none" then some none else (decodeStr p).map some
-    match path with
-    | none => (r, "bad-op")
-    | some path =>
-      let k := (r.z.filter (fun e => pathMatch e.2 (filterPath (path.getD [])))).length
-      (r, joinWith " || " (dedup ((orders r.z).map (fun o => fmtOutcome (r.serveCOAP o path)))) ++ s!" ## {k}")
+  | ["served", p] => modelServe r p
+  | ["serve", p] => modelServe r p
   | ["match", p] =>
     match decodeStr p with
     | none => (r, "bad-op")
@@ -135,6 +140,16 @@ def parseSeen (ws : List String) : Option Seen :=
 open CoapVerif.Spec.Router in
 def specH (f : Bool) (h : String) : Option H :=
   if h = "nil" then (if f then some .nilFunc else none) else some (.named h)
+
+open CoapVerif.Spec.Router in
+def judgeServeLine (st : SpecState) (p : String) (ow : List String) : String :=
+  let path : Option (Option Str) := if p = "none" then some none else (decodeStr p).map some
+  match path, parseSeen ow with
+  | some path, some seen =>
+    match judgeServe st path seen with
+    | none => "ok"
+    | some c => "violates " ++ c
+  | _, _ => "bad-obs"
 
 open CoapVerif.Spec.Router in
 def judgeStep (st : SpecState) (line : String) : SpecState × String :=
@@ -183,14 +198,8 @@ def judgeStep (st : SpecState) (line : String) : SpecState × String :=
     | ["default", h] => ({ st with dflt := specH false h }, "ok")
     | ["defaultf", h] => ({ st with dflt := specH true h }, "ok")
     | ["mw", m] => ({ st with mws := st.mws ++ [m] }, "ok")
-    | ["serve", p] =>
-      let path : Option (Option Str) := if p = "none" then some none else (decodeStr p).map some
-      match path, parseSeen ow with
-      | some path, some seen =>
-        match judgeServe st path seen with
-        | none => (st, "ok")
-        | some c => (st, "violates " ++ c)
-      | _, _ => (st, "bad-obs")
+    | ["serve", p] => (st, judgeServeLine st p ow)
+    | ["served", p] => (st, judgeServeLine st p ow)
     | ["match", p] =>
       match decodeStr p, ow with
       | some path, ["nomatch"] =>
